@@ -6,7 +6,7 @@ KINDS = ["NewGrp", "Sub", "Leave", "SetSelf", "SetOther", "DelSub", "Pub", "Unlo
 
 def run(ctx):
     return tc.run_topic_check(
-        ctx, "C02", kinds=KINDS, maxseq=4, sess_per_user=2, nusers=3, p2p=True, root=True,
+        ctx, "C02", kinds=KINDS, maxseq=4, sess_per_user=2, nusers=3, p2p=True, root=True, chan=True,
         want=["-", "N", "JRWP", "JWP", "JRW", "RWP"], given=["-", "N", "JRWP", "JWP", "JRW", "RWP", "JRWPAS"],
         u1_quick={"want": ["-", "JRWP", "JWP"], "given": ["-", "JRW"], "kinds": ["NewGrp", "Sub", "Leave", "SetOther", "Pub"], "maxseq": 1, "nusers": 2, "sess_per_user": 2},
         u1_thorough={"want": ["-", "N", "JRWP", "JWP"], "given": ["-", "JRW", "JWP"], "kinds": ["NewGrp", "Sub", "Leave", "SetOther", "Pub"], "maxseq": 1, "nusers": 2, "sess_per_user": 2},
